@@ -442,3 +442,71 @@ Proof.
     rewrite (late_run_ideal pan cats n _ _ _ _ Hg2 (join_view_fl cats _ n)).
     unfold run in *. rewrite exec_app in R. cbn [N.add] in R. rewrite fl_spec, R. reflexivity.
 Qed.
+
+(** *** the Apply API under a reconciling caller follows the same automaton *)
+Definition ap_inv (st : ap_state) : Prop :=
+  match fst st, snd st with
+  | None, None => True
+  | Some i, None => is_pipe (i_ent i) = false
+  | None, Some i => is_pipe (i_ent i) = true
+  | Some _, Some _ => False
+  end.
+
+Definition ap_ent (st : ap_state) : option ent := option_map (fun x => i_ent (snd x)) (ap_live st).
+
+Definition scalls (l : list entry) : list (N * call) := map (fun e => (l_step e, l_call e)) l.
+
+Ltac ap_fin :=
+  repeat (progress (cbn -[pipek same_kind spec_eqb] in *; rewrite ?is_pipe_pipek in *; cbn [e_spec] in *;
+                    repeat match goal with
+                           | H : ?x = _ |- context [if ?x then _ else _] => rewrite H
+                           end));
+  auto.
+
+Lemma applier_spec pan t n new st : ap_inv st ->
+  ap_inv (fst (applier pan t n new st)) /\
+  scalls (snd (applier pan t n new st)) = map (pair t) (fst (spec_calls t n (ap_ent st) new)) /\
+  ap_ent (fst (applier pan t n new st)) = snd (spec_calls t n (ap_ent st) new).
+Proof.
+  destruct st as [[g|] [p|]]; unfold ap_inv; cbn [fst snd]; intros H; try contradiction;
+    unfold applier, ap_ent, ap_live, tc_apply, tc_delete, spec_calls, do_init, do_inherit, do_close, scalls, ap_inv;
+    destruct new as [s|]; rewrite ?is_pipe_pipek in *.
+  - destruct (spec_eqb (e_spec (i_ent g)) s) eqn:Eq.
+    + apply spec_eqb_eq in Eq. subst s.
+      pose proof (spec_eqb_refl (e_spec (i_ent g))) as Er. pose proof (same_kind_refl (e_spec (i_ent g))) as Sr.
+      ap_fin.
+    + destruct (same_kind (e_spec (i_ent g)) s) eqn:Sk.
+      * pose proof (pipek_same_kind _ _ Sk) as Pk. rewrite H in Pk. symmetry in Pk. ap_fin.
+      * destruct (pipek s) eqn:P; ap_fin.
+  - ap_fin.
+  - destruct (spec_eqb (e_spec (i_ent p)) s) eqn:Eq.
+    + apply spec_eqb_eq in Eq. subst s.
+      pose proof (spec_eqb_refl (e_spec (i_ent p))) as Er. pose proof (same_kind_refl (e_spec (i_ent p))) as Sr.
+      ap_fin.
+    + destruct (same_kind (e_spec (i_ent p)) s) eqn:Sk.
+      * pose proof (pipek_same_kind _ _ Sk) as Pk. rewrite H in Pk. symmetry in Pk. ap_fin.
+      * destruct (pipek s) eqn:P; ap_fin.
+  - ap_fin.
+  - destruct (pipek s) eqn:P; ap_fin.
+  - ap_fin.
+Qed.
+
+Lemma apply_exec_spec pan n : forall news t st l, ap_inv st ->
+  scalls (snd (apply_exec pan t n news (st, l))) = scalls l ++ fst (spec_log t n (ap_ent st) news) /\
+  ap_ent (fst (apply_exec pan t n news (st, l))) = snd (spec_log t n (ap_ent st) news).
+Proof.
+  induction news as [|new r IH]; intros t st l Hi.
+  - cbn. rewrite app_nil_r. auto.
+  - cbn [apply_exec spec_log fst snd].
+    destruct (applier_spec pan t n new st Hi) as (I & C & E).
+    destruct (IH (t + 1) (fst (applier pan t n new st)) (l ++ snd (applier pan t n new st)) I) as [K1 K2].
+    destruct (spec_calls t n (ap_ent st) new) as [cs o']. cbn [fst snd] in C, E.
+    rewrite E in K1, K2.
+    destruct (spec_log (t + 1) n o' r) as [lg fin]. cbn [fst snd] in *.
+    unfold scalls in *. rewrite K1, K2, map_app, C, app_assoc. split; reflexivity.
+Qed.
+
+Lemma apply_exactly_once pan n news :
+  scalls (snd (apply_exec pan 0 n news ((None, None), []))) = fst (spec_log 0 n None news) /\
+  ap_ent (fst (apply_exec pan 0 n news ((None, None), []))) = snd (spec_log 0 n None news).
+Proof. exact (apply_exec_spec pan n news 0 (None, None) [] I). Qed.
